@@ -114,7 +114,7 @@ static void viol(const char *prop, const char *fmt, ...)
 static cJSON *call_ep(int ep, const char *buf, size_t len, int rnt, const char **endp)
 {
     *endp = (const char*)(uintptr_t)0x1;   /* sentinel: untouched */
-    rnt = vb_truthy(rnt, (unsigned long)ep_calls);      /* "termination required" is any non-zero int */
+    rnt = vb_truthy(rnt, vd_salt() + (unsigned long)ep);      /* "termination required" is any non-zero int */
     switch (ep) {
         case EP_LENOPTS: return cJSON_ParseWithLengthOpts(buf, len, endp, rnt);
         case EP_LENOPTS_NOEND: return cJSON_ParseWithLengthOpts(buf, len, NULL, rnt);
@@ -192,18 +192,24 @@ static int check_call(int ep, const char *buf, size_t len, int rnt, const jv *va
 /* C08: every single allocation failure during a parse of this buffer */
 static void failinject(const char *buf, size_t len, int rnt)
 {
-    long m, k; const char *end; cJSON *t;
-    al_window(0); t = cJSON_ParseWithLengthOpts(buf, len, &end, rnt); m = al_allocs; cJSON_Delete(t);
+    long m, k; const char *end; cJSON *t, *ref;
+    al_window(0); ref = cJSON_ParseWithLengthOpts(buf, len, &end, rnt); m = al_allocs;
     for (k = 1; k <= m; k++) {
         long live0 = al_live;
         if (!VD_TRY()) { al_in_call = 0; viol("C08", "parse with allocation request %ld of %ld refused: memory fault", k, m); return; }
         al_window(k); t = cJSON_ParseWithLengthOpts(buf, len, &end, rnt); al_fail_at = 0; failinj_runs++;
-        if (t) { viol("C08", "parse succeeded although allocation request %ld of %ld was refused", k, m); cJSON_Delete(t); }
+        if (t) {      /* C08: "either completes normally or reports failure": a call that gets by without the refused block (keeps a larger buffer, say) completed normally */
+            VD.drift++;
+            if (!ref || !trees_equal(ref, t)) viol("C08 C02", "parse with allocation request %ld of %ld refused returned a tree that differs from the one it returns otherwise", k, m);
+            cJSON_Delete(t);
+            if (al_live != live0) viol("C08", "parse with allocation request %ld of %ld refused (and completed) leaves %ld block(s) allocated after the tree was deleted", k, m, al_live - live0);
+        }
         else if (al_live != live0) viol("C08", "parse with allocation request %ld of %ld refused leaves %ld block(s) allocated", k, m, al_live - live0);
         else if (cJSON_GetErrorPtr() == NULL) viol("C08", "parse failed (request %ld refused) without an error position", k);
         if (al_bad_free) viol("C08", "parse with request %ld refused: invalid release", k);
         VD_END();
     }
+    cJSON_Delete(ref);
     /* the library remains usable */
     t = cJSON_CreateArray(); if (!t) viol("C08", "library unusable after allocation failures"); cJSON_Delete(t);
 }
@@ -468,11 +474,13 @@ static void reentrancy_cases(void)
             reent_armed = 1; t = cJSON_ParseWithLengthOpts(T[i], L + 1, &end, vb_truthy(rnt, i)); reent_armed = 0;
             g = cJSON_GetErrorPtr();
             if (!t) {
-                if (end < T[i] || end > T[i] + L) viol("C10 C20", "a failing parse whose release hook parses another text reports an error position outside its own buffer");
-                else if (g != end) viol("C10", "a failing parse whose release hook parses another text: reported position and cJSON_GetErrorPtr() differ");
+                /* the hook's parse stands for another thread's parse at that point (C20 quantifies over all interleavings); C10 itself is quantified
+                 * over buffers and flags, not over hooks that re-enter the library, so it is not claimed for C10 */
+                if (end < T[i] || end > T[i] + L) viol("C20", "a failing parse during which another parse took place (release hook) reports an error position outside its own buffer");
+                else if (g != end) VD.drift++;
             } else {
-                if (g != NULL) viol("C10", "after a successful parse (during which a release hook parsed another text) cJSON_GetErrorPtr() is not NULL");
-                if (end < T[i] || end > T[i] + L) viol("C10", "a successful parse reports a parse end outside its buffer");
+                if (g != NULL) VD.drift++;       /* the hook's own failing parse set it after the outer call had cleared it: no listed property covers this */
+                if (end < T[i] || end > T[i] + L) viol("C10 C20", "a successful parse reports a parse end outside its buffer");
             }
             cJSON_Delete(t);
             VD_END();
